@@ -440,7 +440,10 @@ class Input(object):
                     self.unlocking_script = varstr(b'\0' + varstr(self.public_hash))
                 elif self.witness_type == 'segwit':
                     self.unlocking_script = b''
-                elif unlock_script != b'':
+                elif unlock_script != b'' and not (self.unlocking_script and
+                                                   all(w in self.unlocking_script for w in self.witnesses)):
+                    # An unlocking script that already carries this signature and key is kept as it is, so a parsed
+                    # script with other push opcodes than the minimal ones is not rewritten
                     self.unlocking_script = unlock_script
         elif self.script_type in ['p2sh_multisig', 'p2sh_p2wsh']:
             if not self.redeemscript and self.keys:
@@ -482,7 +485,9 @@ class Input(object):
                     self.unlocking_script = varstr(b'\0' + varstr(self.public_hash))
                     if signatures:
                         self.witnesses = unlock_script
-                elif unlock_script != b'': # and self.strict:
+                elif unlock_script != b'' and not (self.unlocking_script and self.redeemscript in self.unlocking_script and
+                                                   all(s in self.unlocking_script for s in signatures)):
+                    # (an unlocking script that already carries these signatures and the redeemscript is kept as it is)
                     self.unlocking_script = unlock_script
         elif self.script_type == 'signature':
             if self.keys:
